@@ -97,7 +97,7 @@ package fox
 //@   modifies t.root
 //@   ensures t.root == old(t.root) || fresh(t.root)
 
-//@ func (*tXn).copyOnWriteSearch props C03,C02 partial
+//@ func (*tXn).copyOnWriteSearch props C03,C02,C04 partial
 //@   requires t != nil && cacheOK(t)
 //@   requires safety-root: rootNode != nil
 //@   modifies t.writable, t.root, cachedIn
@@ -132,21 +132,26 @@ package fox
 //@   ensures result != nil
 //@ extern isRemovable
 
-//@ func (*tXn).insert props C03,C02 partial
+//@ func (*tXn).insert props C03,C02,C04,C01 partial
+//@   assert-at call newNodeFromRef#1 : same-edges: arg_children == result.matched.children && arg_childKeys == result.matched.childKeys && arg_paramChildIndex == result.matched.paramChildIndex && arg_wildcardChildIndex == result.matched.wildcardChildIndex && same(arg_key, result.matched.key) && arg_route == route
+//@   assert-at call newNodeFromRef#2 : same-edges: arg_children == result.matched.children && arg_childKeys == result.matched.childKeys && arg_paramChildIndex == result.matched.paramChildIndex && arg_wildcardChildIndex == result.matched.wildcardChildIndex && arg_route == result.matched.route
 //@   requires t != nil && route != nil && cacheOK(t)
 //@   modifies t.root, t.size, t.maxParams, t.depth, t.writable, cachedIn
 //@   modifies-since snapRef : E[*node]
 //@   ensures cache: cacheOK(t)
 //@   ensures size: (result == nil ==> t.size == old(t.size) + 1) && (result != nil ==> t.size == old(t.size))
 
-//@ func (*tXn).update props C03,C02 partial
+//@ func (*tXn).update props C03,C02,C04,C01 partial
+//@   assert-at call newNodeFromRef#1 : same-edges: arg_children == result.matched.children && arg_childKeys == result.matched.childKeys && arg_paramChildIndex == result.matched.paramChildIndex && arg_wildcardChildIndex == result.matched.wildcardChildIndex && same(arg_key, result.matched.key) && arg_route == route
 //@   requires t != nil && route != nil && cacheOK(t)
 //@   modifies t.root, t.writable, cachedIn
 //@   modifies-since snapRef : E[*node]
 //@   ensures cache: cacheOK(t)
 //@   ensures size: t.size == old(t.size)
 
-//@ func (*tXn).remove props C03,C02 partial
+//@ func (*tXn).remove props C03,C02,C04,C01 partial
+//@   assert-at call newNodeFromRef#1 : same-edges: arg_children == result.matched.children && arg_childKeys == result.matched.childKeys && arg_paramChildIndex == result.matched.paramChildIndex && arg_wildcardChildIndex == result.matched.wildcardChildIndex && same(arg_key, result.matched.key) && arg_route == nil
+//@   assert-at call newNodeFromRef#2 : merged-edges: arg_children == child.children && arg_childKeys == child.childKeys && arg_paramChildIndex == child.paramChildIndex && arg_wildcardChildIndex == child.wildcardChildIndex && arg_route == child.route
 //@   requires t != nil && cacheOK(t)
 //@   modifies t.root, t.size, t.writable, cachedIn
 //@   modifies-since snapRef : E[*node]
@@ -154,7 +159,7 @@ package fox
 //@   ensures size: result1 ==> t.size == old(t.size) - 1 && result0 != nil
 //@   ensures size-miss: !result1 ==> t.size == old(t.size) || t.size == old(t.size) - 1
 
-//@ func (*tXn).truncate props C03,C02 partial
+//@ func (*tXn).truncate props C03,C02,C04 partial
 //@   requires t != nil
 //@   modifies t.root, t.size
 //@   ensures all: len(methods) == 0 ==> t.size == 0 && fresh(t.root)
